@@ -8,12 +8,18 @@ class CliExit(Exception):
     pass
 
 
-def run_cli(name, argv):
+def run_cli(name, argv, verbose=False):
+    """run a batchie command line entry point in-process; verbose=True adds the --verbose flag every entry point has (what the
+    program logs is of no interest and is swallowed, what it computes must not depend on it)"""
     mod = importlib.import_module("batchie.cli." + name)
     old = sys.argv
+    argv = list(argv) + (["--verbose"] if verbose else [])
     sys.argv = [name] + [str(a) for a in argv]
+    level_before = logging.root.manager.disable
+    if verbose:
+        logging.disable(logging.NOTSET)  # (the harness silences logging globally; a verbose run really logs, into a sink)
     try:
-        if any(str(a) in ("--progress", "-P") for a in argv):
+        if any(str(a) in ("--progress", "-P", "--verbose", "-v") for a in argv):
             import contextlib
             import io
 
@@ -26,6 +32,7 @@ def run_cli(name, argv):
             raise CliExit("%s exited with %r (argv %r)" % (name, e.code, argv))
     finally:
         sys.argv = old
+        logging.disable(level_before)
         logging.getLogger("batchie").handlers[:] = []
 
 
